@@ -31,6 +31,7 @@ func main() {
 	commands["rot"] = cmdRot
 	commands["rot-replay"] = cmdRotReplay
 	commands["api"] = cmdAPI
+	commands["scan"] = cmdScan
 	commands["apicases"] = cmdAPICases
 	commands["asm"] = cmdAsm
 	commands["lx"] = cmdLX
